@@ -125,6 +125,11 @@ def sanitised(node):
     """The order-observing expression is consumed by an order-insensitive operation."""
     p = parent(node)
     if isinstance(p, ast.Call) and node in p.args and unparse(p.func) in SANITISERS:
+        if unparse(p.func) == 'sorted':
+            keys = [k for k in p.keywords if k.arg == 'key']
+            if keys and not any(w in unparse(keys[0].value) for w in ('location', 'declared_at')):
+                # a sort key that is not injective (str.lower, len, ...) leaves ties in set-iteration order
+                return None
         return 'argument of %s()' % unparse(p.func)
     if isinstance(p, ast.Compare) and any(isinstance(o, (ast.In, ast.NotIn)) for o in p.ops) and node in p.comparators:
         return 'membership test'
@@ -230,6 +235,11 @@ def run(repo, res):
             src = None
             if isinstance(nd, ast.Call) and unparse(nd.func) in ('list', 'tuple') and nd.args and an.kind(nd.args[0]) == 'U':
                 site, src = nd, nd.args[0]
+            elif isinstance(nd, ast.Call) and unparse(nd.func) == 'sorted' and nd.args and an.kind(nd.args[0]) == 'U' \
+                    and any(k.arg == 'key' and not any(w in unparse(k.value) for w in ('location', 'declared_at'))
+                            for k in nd.keywords):
+                # stable sort under a key that need not be injective: ties keep the iteration order of the set
+                site, src = nd, nd.args[0]
             elif isinstance(nd, (ast.ListComp, ast.GeneratorExp)) and any(an.kind(g.iter) == 'U' for g in nd.generators):
                 site, src = nd, [g.iter for g in nd.generators if an.kind(g.iter) == 'U'][0]
                 # a generator handed straight to set()/sorted()/any() is order-insensitive
@@ -260,6 +270,8 @@ def run(repo, res):
             key = '%s: %s' % (fi.qual, unparse(site)[:60])
             why = sanitised(site)
             esc = None if why else escapes(site, fi.node)
+            if isinstance(site, ast.Call) and unparse(site.func) == 'sorted' and esc is None and why is None:
+                esc = 'returned / used as an ordered result'
             if esc and esc.startswith('passed to ') and esc[10:-2] in CONSUMER_ORDERS and alt_sorted(repo):
                 why, esc = CONSUMER_ORDERS[esc[10:-2]], None
             ok = why is not None or esc is None
